@@ -39,7 +39,6 @@ func vIxKeys(id int) []string {
 	return vUniqSorted(ks)
 }
 
-
 // vPrefixLowByte: under eight first bytes, a key K of 9, 10, 15, 17, 25, 33, 41 or 63 bytes that
 // is a proper prefix of the key(s) after it, which continue with a byte below 0x10 (a
 // separator): pairs {K, K+0x05}, or triples {K, K+"\x00email", K+"\x00name"}.
@@ -211,8 +210,6 @@ func vUniqSorted(ks []string) []string {
 	}
 	return ks
 }
-
-
 
 // vBuildOther builds (and drops) a second, unrelated index: nothing a later build does may
 // disturb an index that is still alive (shared scratch memory, pools, caches).
